@@ -131,6 +131,7 @@ type Backend struct {
 	// authenticator name; the token expected is "\x00" + AuthUser + "\x00" + AuthPass
 	AuthMode           int
 	AuthUser, AuthPass string
+	HostAccept         map[string]map[byte]bool // per host (IP): like AcceptVersions, for that host only
 	AcceptVersions     map[byte]bool // if non-nil, STARTUPs of other versions get "Invalid or unsupported protocol version"
 	// SysHostile: how the rows of system.local / system.peers are malformed (0: not at all).  1 local rpc_address null,
 	// 2 local data_center null, 3 local rpc_address 0.0.0.0 (system.local has no peer column to fall back on), 4 local
@@ -381,6 +382,24 @@ func (b *Backend) Unlock() { b.mu.Unlock() }
 
 // a statement whose table name has no keyspace qualifier
 var unqualifiedRe = regexp.MustCompile(`(?i)\b(FROM|INTO|UPDATE)\s+"?[A-Za-z_][A-Za-z_0-9]*"?(\s|\(|$)`)
+
+// SetHostAccept: host n accepts STARTUPs of these protocol versions only from now on (nil: whatever the backend accepts).
+func (b *Backend) SetHostAccept(n int, versions ...byte) {
+	b.mu.Lock()
+	if b.HostAccept == nil {
+		b.HostAccept = map[string]map[byte]bool{}
+	}
+	if len(versions) == 0 {
+		delete(b.HostAccept, b.IP(n))
+	} else {
+		m := map[byte]bool{}
+		for _, v := range versions {
+			m[v] = true
+		}
+		b.HostAccept[b.IP(n)] = m
+	}
+	b.mu.Unlock()
+}
 
 // SetSysDelay: answers to system-table queries are written after d from now on.
 func (b *Backend) SetSysDelay(d time.Duration) {
@@ -904,6 +923,11 @@ func (c *Conn) handle(hdr, body, raw []byte) bool {
 		}
 		be.mu.Lock()
 		accept, mode := be.AcceptVersions, be.AuthMode
+		be.mu.Unlock()
+		be.mu.Lock()
+		if ha := be.HostAccept[c.host.IP]; ha != nil && accept == nil {
+			accept = ha
+		}
 		be.mu.Unlock()
 		if accept != nil && !accept[byte(version)] {
 			c.sendMsg(stream, &message.ProtocolError{ErrorMessage: "Invalid or unsupported protocol version (" + version.String() + ")"})
